@@ -161,6 +161,19 @@ func PlanFromSeed(seed int64, k int) Plan {
 		p.FirstPeer = 0
 		p.Extend, p.ReorgDepth = 0, 0
 	}
+	if k == 13 {
+		// A fixed scenario: a chain longer than one headers message (2000),
+		// honest peers only; after the sync the honest chain reorganises near
+		// the tip and the new tip is announced by inv (the client must locate
+		// the fork with a locator, not with its tip hash alone).
+		p.ChainLen = 2100
+		p.Checkpoints = nil
+		p.Preset = chaingen.PresetNoRetarget
+		p.Peers = []PeerPlan{{Kind: BHonest}, {Kind: BHonest}}
+		p.FirstPeer = -1
+		p.Announce = "inv"
+		p.Extend, p.ReorgDepth = 1, 3
+	}
 	if k == 11 || k == 12 {
 		// Fixed scenarios: the client's first peer serves a valid fork that
 		// leaves the honest chain EXACTLY at a boundary the client may not go
